@@ -8,15 +8,36 @@ import (
 	"fmt"
 	"os"
 	"path/filepath"
+	"runtime/debug"
 	"sync"
 	"time"
 
 	"github.com/icon-project/goloop/common/codec"
+	"github.com/icon-project/goloop/common/log"
 	"github.com/icon-project/goloop/consensus"
 	"github.com/icon-project/goloop/module"
 	"github.com/icon-project/goloop/test"
-	"verif/harness/hxlib"
 )
+
+// catch is hxlib.Catch plus the stack of the panic (kept for diagnostics).
+var lastStack string
+var lastStackMu sync.Mutex
+
+func catch(f func()) (panicked string) {
+	defer func() {
+		if r := recover(); r != nil {
+			panicked = fmt.Sprint(r)
+			if panicked == "" {
+				panicked = "panic"
+			}
+			lastStackMu.Lock()
+			lastStack = string(debug.Stack())
+			lastStackMu.Unlock()
+		}
+	}()
+	f()
+	return ""
+}
 
 type engine interface {
 	module.Consensus
@@ -70,9 +91,11 @@ func newRunner(w *world, own int) *runner {
 		r.addBlockInfo(b)
 	}
 	r.nd = test.NewNode(r.t, test.UseGenesis(w.genesis), test.UseWallet(w.wallets[own]))
+	r.nd.Chain.Logger().SetLevel(log.WarnLevel)
 	r.chain = &chainW{Chain: r.nd.Chain}
 	r.chain.nm = &nmW{NetworkManager: r.nd.Chain.NetworkManager(), run: r}
 	r.chain.bm = &bmW{BlockManager: r.nd.BM, run: r}
+	r.chain.sm = &smW{ServiceManager: r.nd.SM}
 	var err error
 	r.base, err = os.MkdirTemp("", "c02-hist")
 	must(err)
@@ -90,9 +113,9 @@ func (r *runner) addBlockInfo(b *blockInfo) {
 
 func (r *runner) close() {
 	if r.eng != nil && !r.down {
-		hxlib.Catch(func() { r.eng.Term() })
+		catch(func() { r.eng.Term() })
 	}
-	hxlib.Catch(func() { r.nd.Close() })
+	catch(func() { r.nd.Close() })
 	os.RemoveAll(r.base)
 }
 
@@ -118,7 +141,7 @@ func (r *runner) start() string {
 	r.timerPtr = nil
 	t0 := time.Now()
 	var err error
-	p := hxlib.Catch(func() { err = r.eng.Start() })
+	p := catch(func() { err = r.eng.Start() })
 	if p != "" {
 		return "panic in Start: " + p
 	}
@@ -201,7 +224,7 @@ func (r *runner) waitTimeout() (consensus.VerifState, bool) {
 
 func (r *runner) deliver(pi module.ProtocolInfo, bs []byte) (consensus.VerifState, string) {
 	t0 := time.Now()
-	p := hxlib.Catch(func() { _, _ = r.eng.OnReceive(pi, bs, peerID{1, 2, 3, 4}) })
+	p := catch(func() { _, _ = r.eng.OnReceive(pi, bs, peerID{1, 2, 3, 4}) })
 	st := r.after(t0)
 	return st, p
 }
@@ -233,7 +256,7 @@ func (r *runner) release(q *bmReq, fail bool) (consensus.VerifState, string) {
 		blk, err = nil, fmt.Errorf("verif: injected validation failure")
 	}
 	t0 := time.Now()
-	p := hxlib.Catch(func() { q.cb(blk, err) })
+	p := catch(func() { q.cb(blk, err) })
 	st := r.after(t0)
 	return st, p
 }
@@ -257,7 +280,7 @@ func frameBytes(n int) int64 { return int64(8 + n) }
 // crash terminates the engine and builds the on-disk WAL image of a crash that
 // happened when exactly `cut` recorder entries existed.
 func (r *runner) crash(cut int, sp crashSpec) crashResult {
-	hxlib.Catch(func() { r.eng.Term() })
+	catch(func() { r.eng.Term() })
 	r.down = true
 	res := crashResult{Keep: map[string]int{}}
 	ndir := filepath.Join(r.base, fmt.Sprintf("wal%d", r.inc))
